@@ -39,7 +39,7 @@ PROBES = ["split_remainder_nonzero", "insufficient_funds_refused", "less_than_on
           "cache_roundtrip_bytes", "torn_cache_file_read", "provider_lookup_cached", "observed_stuck_after_heal",
           "observed_txdb_returned_unrequested_tx", "spendable_form_text", "spendable_form_dict", "display_roundtrip",
           "attach_unspents", "fee_after_in_place_edit", "validate_against_unfiltered_source", "validate_against_plain_dict",
-          "validate_refused_colluding_source", "attach_left_unknown", "build_by_hand_distribute_from_split_pool", "build_create_signed_tx"]
+          "validate_refused_colluding_source", "attach_left_unknown", "build_by_hand_distribute_from_split_pool", "build_create_signed_tx", "build_args_are_generators"]
 
 CACHE = "/wallet/cache"
 
@@ -146,7 +146,8 @@ def gen_plan(rng, tier, index, config=None):
                     fee = max(0, tin - fixed_ - target)
             steps.append({"op": "build", "id": "x%d" % nbuilt, "spend": spends, "pay": pays, "fee": fee,
                           "lock_time": r.pick([0, 0, 500000]), "version": r.pick([1, 1, 2]),
-                          "route": r.weighted([("create_tx", 4), ("manual", 1), ("signed", 1)])})
+                          "route": r.weighted([("create_tx", 4), ("manual", 1), ("signed", 1)]),
+                          "container": r.weighted([("list", 4), ("tuple", 1), ("generator", 1)])})
             nbuilt += 1
         elif op == "validate":
             steps.append({"op": "validate", "tx": "x%d" % r.below(nbuilt), "db": r.weighted([("txdb", 5), ("raw", 3 if faulty else 1), ("dict", 1)])})
@@ -513,6 +514,13 @@ def _op_build(ctx, W, st):
     remaining = total_in - fixed - fee_n
     must_raise = zero > 0 and (remaining < 0 or remaining < zero)
     def create(objs, payables, **kw):
+        # the argument containers the caller happens to use: lists, tuples, or generators that can be consumed once
+        cont = st.get("container", "list")
+        if cont == "tuple":
+            objs, payables = tuple(objs), tuple(payables)
+        elif cont == "generator" and st.get("route") != "manual":
+            objs, payables = (o for o in list(objs)), (p_ for p_ in list(payables))
+            ctx.probe("build_args_are_generators")
         if st.get("route") == "signed" and W.ds:
             # the one-call route: the wallet holds the keys of every output it ever received
             ctx.probe("build_create_signed_tx")
